@@ -26,6 +26,7 @@ func init() {
 		func(c *Ctx) {
 			ruleGCTyped(c)
 			ruleALKey(c)
+			ruleALFinal(c)
 			ruleGCUintptr(c)
 			ruleGCLink(c)
 			ruleGCTarget(c)
@@ -62,6 +63,7 @@ func init() {
 			"Not decided: round trip of values through a custom codec.",
 		func(c *Ctx) {
 			ruleBTReg(c)
+			ruleBTPure(c)
 			ruleSGReg(c)
 			ruleRegOverwrite(c)
 			ruleRegPair(c)
